@@ -179,7 +179,10 @@ def draw_system(rng, seed: int, prop: str, *, families=("single",) * 6 + ("cross
             params["n_modes"] = max(2, min(5, rk[0], rk[1]))
     cfg["rot_params"] = models.draw_rotator_params(rng, params, lazy=lazy if lazy else None) if spec.rotator else None
     # (bootstrap members are reproducible "to solver accuracy" only - C20 - so they stay in the exact regime)
-    cfg["boot_params"] = {"n_bootstraps": rng.randint(2, 4), "seed": rng.randrange(1000)} if name == "EOF" and not lazy and not wide else None
+    # ... and a resample of few samples is rank-deficient around the requested mode count: its trailing modes are
+    # then decided by the inner (unseeded) solver's random sketch, so the bootstrapper needs enough samples
+    enough = name == "EOF" and all(gen.n_samples_total(descs[k]) >= 4 * int(params["n_modes"]) + 4 for k in ("D0", "D1", "D2"))
+    cfg["boot_params"] = {"n_bootstraps": rng.randint(2, 4), "seed": rng.randrange(1000)} if name == "EOF" and not lazy and not wide and enough else None
     cfg["sched"] = sched.Config(W=rng.choice([1, 1, 2, 3, 4, 8]), reexec=rng.choice([0, 0, 0.05, 0.15]),
                                 transient=rng.choice([0, 0, 0.05]), stall=rng.choice([0, 0.1]),
                                 purity=1.0).to_json()
